@@ -626,7 +626,10 @@ fn non_acquiring(env: &Env, tid: Tid, label: &str, f: impl FnOnce()) {
 		}
 		Err(p) => match classify_panic(p) {
 			PanicKind::Abort => {}
-			PanicKind::Fault => {}
+			PanicKind::Fault => {
+				// an injected raw panic reached the caller of the operation
+				env.sh().last_outcome = "panicked".into();
+			}
 			PanicKind::User => {
 				// user code called back by the operation (the payload's own Debug)
 				// panicked: whatever the operation took for itself must be gone
